@@ -92,7 +92,7 @@ def run(ctx):
         img = os.path.join(tmp, 'f.ssd')
         open(img, 'wb').write(d.encode(lambda n: bytes(n)))
         dfs_cmds = [['cat'], ['info', '*.*'], ['free'], ['space'], ['sector-map'], ['show-titles'], ['help'], ['dump-sector', '0', '0', '0'],
-                    ['type', 'TEXT'], ['type', '--binary', 'BIG'], ['list', 'TEXT'], ['dump', 'TEXT'], ['dump', 'BIG'], ['--ui', 'watford', 'cat']]
+                    ['type', 'TEXT'], ['type', '--binary', 'BIG'], ['type', 'BIG'], ['list', 'BIG'], ['list', 'TEXT'], ['dump', 'TEXT'], ['dump', 'BIG'], ['--ui', 'watford', 'cat']]
         for cmd in dfs_cmds:
             jobs.append(('dfs', [impl['dfs'], '--file', img] + cmd, b'', 'stdout'))
         jobs.append(('dfs', [impl['dfs'], '--file', img, 'extract-files', 'OUT'], b'', 'files'))
@@ -115,6 +115,11 @@ def run(ctx):
             jobs.append(('basic', [impl['basic'], '--dialect', name, p, e], b'', 'stdout'))
             jobs.append(('basic', [impl['basic'], '--dialect', name, e, p, z], b'', 'stdout'))
             jobs.append(('basic', [impl['basic'], '--dialect', name, p, '-'], b'', 'stdout'))
+            # runs whose last act is a warning on stderr (bytes after the end marker), alone and after another file
+            w = os.path.join(tmp, 'junk_%s.bbc' % name)
+            open(w, 'wb').write(data + b'\x01\x02junk')
+            jobs.append(('basic', [impl['basic'], '--dialect', name, w], b'', 'stdout'))
+            jobs.append(('basic', [impl['basic'], '--dialect', name, p, w], b'', 'stdout'))
         jobs.append(('basic', [impl['basic'], '--help'], b'', 'stdout'))
         jobs.append(('basic', [impl['basic'], '--dialect=help', os.path.join(tmp, 'p_6502.bbc')], b'', 'stdout'))
         jobs.append(('basic', [impl['basic'], '-D', '-'], b'', 'stdout'))
